@@ -693,7 +693,7 @@ func TestCheck(t *testing.T) {
 		if classes >= 2 {
 			rep.Note("distinct_nontrivial", "A:"+s.feature())
 		}
-		if nStreams%997 == 1 {
+		if nStreams == 1 || nStreams == 998 {
 			rep.Sample(map[string]any{"part": "A", "stream": s.describe(), "cut_positions": len(s.cuts)})
 		}
 		// the two extreme segmentations on a fresh object, GetClientHello only at the end (as serveConn does)
@@ -750,6 +750,9 @@ func TestCheck(t *testing.T) {
 					break
 				}
 				s := mkStream(byte(tv[0]), uint16(tv[1]), L, L, tr, 0, "all")
+				if compTraces == 0 {
+					rep.Sample(map[string]any{"part": "A2", "stream": s.describe(), "what": "every composition of n into read sizes, e.g. [1 1 3 2 ...], on a fresh wrapper; GetClientHello after every read / only at the end"})
+				}
 				compositions(len(s.data), func(parts []int) {
 					for variant := 0; variant < 2; variant++ {
 						var ops []op
